@@ -5,26 +5,7 @@ import json, os, sys
 HERE = os.path.dirname(os.path.dirname(os.path.abspath(__file__)))
 
 # property -> (level category, technique, level text, level note)
-CHECKS = {
-    "C06": (
-        "fault_enumeration",
-        "complete enumeration of all messages / received words / error patterns against an independent cyclic-code reference (generated-input search with generator = whole finite domain), sharded over 16 processes",
-        "Exhaustive: every k-bit message, every n-bit word, every pair of codewords and every single (and for (16,11,4) double) error pattern of all seven block codes is executed through the library and compared with a table-free reference; within the stated finite domain this settles the property.",
-        "Trusts bitarray/numpy and the reference cyclic encoders in vp/refs/gf2.py (generator polynomials from coding theory, cross-checked against the ETSI matrices only through this comparison).",
-    ),
-    "C02": (
-        "fault_enumeration",
-        "complete enumeration of all 19306 error patterns of weight <= 2 on sampled codewords + Hypothesis search (round trip, reference encoder, GF(2)-linearity)",
-        "Every single and double inversion of the 196 transmitted bits is injected into zero/unit/random codewords and decoded with repair; encoder compared with an independent product-code reference; messages are sampled, faults are complete per codeword (linearity of the code, itself checked on random pairs, carries the result to other codewords).",
-        "Trusts the reference encoder vp/refs/bptc_ref.py (ETSI B.1.1 written from the mathematics) and bitarray/numpy; 2^96 messages are sampled, not enumerated.",
-    ),
-    "C20": (
-        "exploration",
-        "model-based testing: complete enumeration of all operation sequences up to a bounded length over a reduced alphabet + Hypothesis RuleBasedStateMachine histories, reference model compared with the full observable state after every step",
-        "Every history explored is compared step by step with a list-of-records reference model over the complete observable state (len, all(), ids, object identity, every field and dynamic attribute of every record); short histories are covered completely (length 5 quick / 6 thorough over 14 concrete ops), longer ones by seeded random search.",
-        "Bounded exhaustive length and a finite pool of addresses/keys/values; caller errors the code documents (patching id / method names, foreign repeaters) are outside the domain.",
-    ),
-}
+CHECKS = {k: (v["category"], v["technique"], v["text"], v["note"]) for k, v in json.load(open(os.path.join(HERE, "tools", "checks.json"))).items()}
 
 NOT_YET = "check not built yet in this revision of /verif (planned, see DESIGN.md section 4)"
 
